@@ -119,28 +119,74 @@ def literal_zero(node, numer):
     return False
 
 
+def _assigned_on_all_paths(block, name):
+    for st in block:
+        if isinstance(st, ast.Assign) and any(isinstance(t, ast.Name) and t.id == name
+                                              for t in st.targets):
+            return True
+        if isinstance(st, ast.If) and st.orelse and _assigned_on_all_paths(st.body, name) \
+                and _assigned_on_all_paths(st.orelse, name):
+            return True
+        if isinstance(st, ast.With) and _assigned_on_all_paths(st.body, name):
+            return True
+    return False
+
+
+FLOAT_TYPES = ("np.float32", "np.float64", "float", "np.float128", "np.longdouble",
+               "np.double", "np.single")
+
+
+def _is_conversion(expr, nm, funcs, depth=0):
+    """expr is `nm` itself or an int -> float conversion of it (value-preserving)"""
+    src = unparse(expr)
+    if src == nm or src in (f"{nm} * 1.0", f"1.0 * {nm}", f"float({nm})"):
+        return True
+    if isinstance(expr, ast.Call) and isinstance(expr.func, ast.Attribute) \
+            and expr.func.attr == "astype" and unparse(expr.func.value) == nm \
+            and len(expr.args) == 1 and unparse(expr.args[0]) in FLOAT_TYPES:
+        return True
+    if isinstance(expr, ast.Call) and isinstance(expr.func, ast.Name) \
+            and expr.func.id in funcs and len(expr.args) == 1 \
+            and unparse(expr.args[0]) == nm and depth < 2:
+        f = funcs[expr.func.id]
+        if len(f.args.args) != 1:
+            return False
+        p = f.args.args[0].arg
+        rets = [r for r in ast.walk(f) if isinstance(r, ast.Return)]
+        asg = [x for x in ast.walk(f) if isinstance(x, ast.Assign)]
+        return bool(rets) and all(r.value is not None and _is_conversion(r.value, p, funcs,
+                                                                          depth + 1)
+                                  for r in rets) \
+            and all(len(x.targets) == 1 and unparse(x.targets[0]) == p
+                    and _is_conversion(x.value, p, funcs, depth + 1) for x in asg)
+    return False
+
+
 def safe_division_rule(rep):
+    """Decided on path conditions: every `/` in safe_division is `a / b`, and either sits in
+    np.where(b != 0, a / b, <literal 0>) or is only reached when `b != 0` holds (the test
+    `b == 0` failed), the other side of that very test producing a literal zero."""
     S = rep.sources
     fn = S.function(MATHS, "safe_division")
+    funcs = {f.name: f for f in S.module(MATHS).body if isinstance(f, ast.FunctionDef)}
     a, b = [x.arg for x in fn.args.args]
     divs = [n for n in ast.walk(fn) if isinstance(n, ast.BinOp) and isinstance(n.op, ast.Div)]
     if not divs:
         raise AnalysisError("safe_division: no division found")
+
+    def produced(block):
+        """the value a branch assigns or returns (single statement branches)"""
+        if len(block) == 1 and isinstance(block[0], ast.Assign):
+            return block[0].value
+        if len(block) == 1 and isinstance(block[0], ast.Return):
+            return block[0].value
+        return None
     for d in divs:
         key = f"{MATHS}::safe_division::div@{unparse(d)}"
         ok, why = False, "division is not guarded by a zero test of its own divisor"
         if unparse(d.left) == a and unparse(d.right) == b:
             par = getattr(d, "_parent", None)
-            if isinstance(par, ast.IfExp):
-                zt = zero_test(par.test, b)
-                if zt == "zero" and par.orelse is d and literal_zero(par.body, a):
-                    ok = True
-                elif zt == "nonzero" and par.body is d and literal_zero(par.orelse, a):
-                    ok = True
-                else:
-                    why = (f"guard `{unparse(par.test)}` is not an exact zero test of {b} "
-                           "paired with a literal zero alternative")
-            elif isinstance(par, ast.Call) and unparse(par.func) == "np.where" \
+            if isinstance(par, ast.Call) and unparse(par.func) == "np.where" \
                     and len(par.args) == 3 and par.args[1] is d:
                 zt = zero_test(par.args[0], b)
                 if zt == "nonzero" and literal_zero(par.args[2], a):
@@ -149,27 +195,48 @@ def safe_division_rule(rep):
                     why = (f"np.where condition `{unparse(par.args[0])}` is not `{b} != 0` "
                            "(the result must be 0 exactly where the divisor is 0, and a/b "
                            "everywhere else)")
+            else:
+                # enclosing ifs, innermost first
+                child, anc = d, getattr(d, "_parent", None)
+                while anc is not None and anc is not fn:
+                    if isinstance(anc, (ast.If, ast.IfExp)):
+                        zt = zero_test(anc.test, b)
+                        body = anc.body if isinstance(anc.body, list) else [anc.body]
+                        orelse = anc.orelse if isinstance(anc.orelse, list) else [anc.orelse]
+                        in_body = any(child is x or child in ast.walk(x) for x in body)
+                        other = orelse if in_body else body
+                        oval = produced(other) if isinstance(anc, ast.If) else other[0]
+                        if zt is not None:
+                            good_side = (zt == "nonzero") == in_body
+                            if good_side and oval is not None and literal_zero(oval, a):
+                                ok = True
+                            else:
+                                why = (f"guard `{unparse(anc.test)}` does not pair the division "
+                                       f"with a literal zero for {b} == 0")
+                            break
+                    child, anc = anc, getattr(anc, "_parent", None)
         else:
             why = f"divides {unparse(d.left)} by {unparse(d.right)}, not {a} by {b}"
         rep.check(ok, "division-guard", key, why, node=d)
-    # type dispatch is total: the last if/else chain on isinstance(b, float) has a final else
-    tops = [st for st in fn.body if isinstance(st, ast.If)
-            and "isinstance" in unparse(st.test) and "float" in unparse(st.test)]
-    total = bool(tops) and bool(tops[-1].orelse)
-    rets = [st for st in fn.body if isinstance(st, ast.Return)]
-    rep.check(total and len(rets) == 1, "division-total", f"{MATHS}::safe_division::dispatch",
-              "the float/array dispatch must end in an else branch and a single return",
-              node=fn)
+    # the dispatch is total: every path returns a value
+    from ..common import all_paths_return
+    rets = [st for st in ast.walk(fn) if isinstance(st, ast.Return)]
+    total = all_paths_return(fn.body)
+    if not total and isinstance(fn.body[-1], ast.Return) \
+            and isinstance(fn.body[-1].value, ast.Name):
+        total = _assigned_on_all_paths(fn.body[:-1], fn.body[-1].value.id)
+    rep.check(total and all(r.value is not None for r in rets), "division-total",
+              f"{MATHS}::safe_division::dispatch",
+              "every path through the float/array dispatch must produce the quotient "
+              "(a final else, no path falling through)", node=fn)
     # a and b are only converted (int -> float), never otherwise reassigned
     for st in ast.walk(fn):
         if isinstance(st, ast.Assign) and len(st.targets) == 1 \
                 and isinstance(st.targets[0], ast.Name) and st.targets[0].id in (a, b):
-            src = unparse(st.value)
             nm = st.targets[0].id
-            ok = src in (f"{nm} * 1.0", f"{nm}*1.0", f"float({nm})") or \
-                src.startswith(f"{nm}.astype(")
-            rep.check(ok, "division-operands", f"{MATHS}::safe_division::{nm}={src}",
-                      f"operand {nm} is changed before dividing: {src}", node=st)
+            rep.check(_is_conversion(st.value, nm, funcs), "division-operands",
+                      f"{MATHS}::safe_division::{nm}={unparse(st.value)}",
+                      f"operand {nm} is changed before dividing: {unparse(st.value)}", node=st)
 
 
 CONST_OK = ("self.kappa", "np.pi")
